@@ -70,6 +70,10 @@ CHECKS.update({
    text="Exhaustive cross product on fresh worlds with crash attribution: 8 log shapes (incl. replication in progress while saving) x 3 store types x 12 payload-size landmarks, plus windows of consecutive sizes around the measured payload sizes at which the marshalled entry and header cross the 16-bit length limit. Save, restart on the same cache and blockstore, load from snapshot: a save error passes, otherwise the reload must reproduce entries, order, heads and view; panic or hang is a violation.",
    note="Trusted: sim environment with boxo's real unixfs importer/reader. Sizes are a boundary family, not every integer.",
    tech="exhaustive enumeration of a finite boundary-value input family against the real implementation in crash-isolated workers"),
+ "C12": dict(cat="exploration", ref="5/C12",
+   text="Four completely enumerated input families (all byte strings of length <= 2 plus 3-symbol JSON strings; structural address x heads shapes and all single/pair field corruptions of a real head; byte-level mutations and truncations of a real message; boundary/overflowing/over-long/truncated frame lengths) fed to three entry points (topic listener, direct-channel monitor, raw stream frames into the real stream adapter) in crash-isolated workers; the process must survive, the victim's contents must be unchanged and a valid announcement sent afterwards must still be merged.",
+   note="Trusted: sim environment, in-memory host/stream double for the stream adapter. 'Every byte string' is decided for the stated finite families.",
+   tech="exhaustive enumeration of finite malformed-input families against the real decoders and handlers, crash attribution by journalled worker processes"),
 })
 NOT_APPLICABLE = []
 ALL = ["C%02d" % i for i in range(1, 21)]
